@@ -62,6 +62,8 @@ def gen_scenario(rng, component=None, kinds=('int', 'str', 'str', 'tuple', 'fd')
             spec = gen_mdp_spec(rng, proper=True, uniform_actions=uniform, discounts=(0.5, 0.8, 0.9, 0.95), max_states=5,
                                 kinds=kinds)
             problem = dict(type='mdp', spec=spec)
+            if rng.random() < 0.4:
+                problem['dist'] = 'mixture'      # transition distributions written as scaled point masses mixed with `|`
         if comp in ('qlearning', 'sarsa', 'expectedsarsa', 'doubleq'):
             params = dict(episodes=rng.randint(1, 4), rand_choose=rng.choice((0.1, 0.5)), step_size=0.5, softmax_temp=rng.choice((0.0, 1.0)))
         elif comp == 'rmax':
@@ -73,8 +75,10 @@ def gen_scenario(rng, component=None, kinds=('int', 'str', 'str', 'tuple', 'fd')
         elif comp == 'semimdp':
             params = dict(nsim=rng.choice((2, 5)), optname=rng.choice(('o', 'go-left', 'opt_7')), max_steps=rng.choice((5, 50)), pseed=rng.randrange(10 ** 6),
                           planned=rng.random() < 0.4)
+            params['mix'] = rng.random() < 0.4
         elif comp in ('rollout_mdp', 'evaluate_mdp'):
             params = dict(cap=rng.choice((5, 20)), nsim=rng.choice((2, 4)), pseed=rng.randrange(10 ** 6), tabular=rng.random() < 0.5)
+            params['mix'] = rng.random() < 0.4
     return dict(component=comp, problem=problem, params=params, seed=seed)
 
 
@@ -146,7 +150,7 @@ def build_domain(name, ctx=None):
 def build_problem(problem, ctx=None):
     t = problem['type']
     if t == 'mdp':
-        return make_mdp(MDPView(problem['spec']), ctx)
+        return make_mdp(MDPView(problem['spec']), ctx, dist=problem.get('dist', 'dict'))
     if t == 'graph':
         return make_graph_mdp(GraphView(problem['spec']), problem['rep'])
     if t == 'pomdp':
@@ -194,7 +198,7 @@ def _states(problem):
     return list(problem.state_list)
 
 
-def _rand_policy(problem, pseed, tabular=False):
+def _rand_policy(problem, pseed, tabular=False, mix=False):
     from msdm.core.mdp import FunctionalPolicy
     from msdm.core.distributions import DictDistribution
     r = _pyrandom.Random(pseed)
@@ -205,7 +209,12 @@ def _rand_policy(problem, pseed, tabular=False):
             acts = list(problem.actions(s))
             k = len(acts)
             w = [r.randint(1, 4) for _ in range(k)]
-            tab[s] = DictDistribution({a: x / sum(w) for a, x in zip(acts, w)})
+            if mix and k > 1:
+                # an epsilon-soft style policy written with distribution arithmetic: greedy * (1 - e) | uniform * e
+                e = r.choice((0.1, 0.25, 0.5))
+                tab[s] = DictDistribution({acts[w.index(max(w))]: 1.0}) * (1 - e) | DictDistribution.uniform(acts) * e
+            else:
+                tab[s] = DictDistribution({a: x / sum(w) for a, x in zip(acts, w)})
         return tab[s]
     # tabulate in a canonical order so the table does not depend on visit order
     for s in sorted(problem.state_list, key=lambda x: str(canon(x))):
@@ -341,7 +350,7 @@ def run_component(sc, problem, algo, env):
     if comp == 'semimdp':
         import msdm.core.semimdp.semimdp as sm
         from msdm.core.semimdp.option import Option
-        pol = _rand_policy(problem, p['pseed'])
+        pol = _rand_policy(problem, p['pseed'], mix=p.get('mix', False))
         states = sorted(problem.state_list, key=lambda x: str(canon(x)))
         term = set(states[::2]) | {s for s in states if problem.is_absorbing(s)}
 
@@ -409,13 +418,13 @@ def run_component(sc, problem, algo, env):
                 pairs.append([f"implicit/{op}: 4 samples drawn with two generators seeded alike", a, b])
         return dict(ops=out, must_equal=pairs)
     if comp == 'rollout_mdp':
-        pol = _rand_policy(problem, p['pseed'], p.get('tabular', False))
+        pol = _rand_policy(problem, p['pseed'], p.get('tabular', False), p.get('mix', False))
         tr = pol.run_on(problem, max_steps=p['cap'], rng=env.rng_factory(seed))
         tr2 = pol.run_on(problem, max_steps=p['cap'], rng=env.rng_factory(seed))
         a, b = [canon(dict(st)) for st in tr.steps], [canon(dict(st)) for st in tr2.steps]
         return dict(steps=a, must_equal=[["rollout_mdp: same policy and model objects rolled out twice with generators seeded alike", a, b]])
     if comp == 'evaluate_mdp':
-        pol = _rand_policy(problem, p['pseed'], p.get('tabular', False))
+        pol = _rand_policy(problem, p['pseed'], p.get('tabular', False), p.get('mix', False))
         from msdm.core.mdp.policy import Policy as _P
         ev = _P.evaluate_on(pol, problem, n_simulations=p['nsim'], max_steps=p['cap'], rng=env.rng_factory(seed))
         return dict(initial_value=float(ev.initial_value), state_value=canon({s: float(v) for s, v in ev.state_value.items()}),
